@@ -109,6 +109,9 @@ public:
     RLBOX_UNUSED(reason);
 
     static_assert(std::is_pointer_v<T>, "Expected pointer type");
+    static_assert(!detail::is_func_ptr_v<T>,
+                  "A function pointer does not designate a range of sandbox "
+                  "memory: its value is not an address in sandbox memory");
     using T_Pointed = std::remove_pointer_t<T>;
     if_constexpr_named(cond1, std::is_pointer_v<T_Pointed>)
     {
@@ -650,6 +653,10 @@ private:
   {
     static_assert(std::is_pointer_v<T>);
     static_assert(detail::is_fundamental_or_enum_v<T_CopyAndVerifyRangeEl>);
+    // (a function type maps to int above, so this has to be said separately)
+    static_assert(!detail::is_func_ptr_v<T>,
+                  "A function pointer does not designate a range of sandbox "
+                  "memory: its value is not an address in sandbox memory");
 
     detail::dynamic_check(
       count != 0,
